@@ -118,7 +118,7 @@ type Case struct {
 	Gens  []string `json:"generator_order"`
 }
 
-var scripted = []string{"g1", "n1", "p1", "g2", "na"}
+var scripted = []string{"g1", "n1", "n2", "p1", "g2", "na"}
 var real = []string{"runtimedoc", "deepcopy", "defaulter"}
 
 func spec(dir string, entry []string, all bool, order []string) pipe.Spec {
@@ -179,14 +179,27 @@ func generatedOf(t pipe.Tree, pkg string) map[string]string {
 	return out
 }
 
-func runOnce(c *core.Ctx, cs Case) (pipe.Tree, pipe.Outcome, bool) {
+func runOnce(c *core.Ctx, cs Case) (pipe.Tree, pipe.Outcome, bool) { return runIn(c, cs, false) }
+
+// runIn: child = in a FRESH process (the reference runs: nothing an earlier run left in package-level
+// state of the library can reach them)
+func runIn(c *core.Ctx, cs Case, child bool) (pipe.Tree, pipe.Outcome, bool) {
 	dir := pipe.TempDir("c05")
 	defer os.RemoveAll(dir)
 	if err := pipe.WriteTree(dir, module()); err != nil {
 		c.Internal("%v", err)
 		return nil, pipe.Outcome{}, false
 	}
-	o := pipe.Exec(spec(dir, cs.Entry, cs.All, cs.Gens))
+	var o pipe.Outcome
+	if child {
+		var err error
+		if o, _, _, err = pipe.ExecChild(spec(dir, cs.Entry, cs.All, cs.Gens)); err != nil {
+			c.Internal("child: %v", err)
+			return nil, o, false
+		}
+	} else {
+		o = pipe.Exec(spec(dir, cs.Entry, cs.All, cs.Gens))
+	}
 	c.Trans(1)
 	if !o.OK() {
 		c.Fail("", cs, "run failed: load=%q err=%q panic=%q\n%s", o.LoadErr, o.Err, o.Panic, o.Stdout)
@@ -207,7 +220,7 @@ func alone(c *core.Ctx, pkg string, gens []string) (map[string]string, bool) {
 	if v, ok := aloneCache[key]; ok {
 		return v, true
 	}
-	t, _, ok := runOnce(c, Case{Entry: []string{pkg}, All: false, Gens: gens})
+	t, _, ok := runIn(c, Case{Entry: []string{pkg}, All: false, Gens: gens}, true)
 	if !ok {
 		return nil, false
 	}
@@ -250,7 +263,7 @@ func checkCase(c *core.Ctx, cs Case) {
 		if len(ref) == 0 {
 			c.Internal("vacuous reference: package %s alone generated nothing", p)
 		}
-		if p == "o" && len(ref) > 4 {
+		if p == "o" && len(ref) > 5 {
 			c.Internal("package o was meant to be quiet for the scripted generators but has %d files", len(ref))
 		}
 		for f, want := range ref {
@@ -355,7 +368,7 @@ func replay(c *core.Ctx, raw json.RawMessage) {
 func init() {
 	core.Register(&core.Prop{
 		ID: "C05", Level: "model_checking", Run: run, Replay: replay,
-		Rule:        "every non-empty ordered selection of entrypoints out of 5 packages (r imports p, s imports q and r; o sorts first and makes the scripted stateful generators record state without rendering anything) x All on/off x generator orders, each on a pristine copy of the module; generators: stateful scripted ones without New (g1, g2 with Defer), with a custom New (n1), registered with pre-allocated reference state and no New (p1), plus runtimedoc/deepcopy/defaulter; oracle: bytes of every <base>.<gen>.go of every processed package == bytes of the run selecting that package alone == bytes of the run selecting that package alone with that generator as the only one; non-trivial = more than one package processed; states = distinct (processed set, All)",
+		Rule:        "every non-empty ordered selection of entrypoints out of 5 packages (r imports p, s imports q and r; o sorts first and makes the scripted stateful generators record state without rendering anything) x All on/off x generator orders, each on a pristine copy of the module; generators: stateful scripted ones without New (g1, g2 with Defer), with a custom New (n1), with a custom New that copies its receiver (n2), registered with pre-allocated reference state and no New (p1), plus runtimedoc/deepcopy/defaulter; oracle: bytes of every <base>.<gen>.go of every processed package == bytes of the run selecting that package alone IN A FRESH PROCESS == bytes of the run selecting that package alone with that generator as the only one; non-trivial = more than one package processed; states = distinct (processed set, All)",
 		Assumptions: []string{"each run starts from the same pristine module tree (no outputs of earlier runs)"},
 	})
 }
